@@ -19,7 +19,91 @@ PROP = "C17"
 LEVEL = "model_checking"
 
 
+def _img(shape, seed, smooth):
+    rng = np.random.default_rng(seed)
+    z, y, x = np.indices(shape).astype(np.float64)
+    c = (np.array(shape) - 1) / 2
+    g = np.exp(-((z - c[0] - 0.4) ** 2 + (y - c[1] + 0.3) ** 2 / 1.5 + (x - c[2] - 0.2 * seed) ** 2 / 2.0) / 4.0)
+    return (g if smooth else g + 0.6 * rng.normal(size=shape)).astype(np.float32)
+
+
+def replay_model(case) -> dict:
+    """FSC as an alignment score (acryo/backend/_fsc.py through FSCAlignment.score / landscape / align): the mean over the shells of
+    width 1/min(shape) of the shell value of the property, so it is symmetric, gain invariant, bounded and 1 for identical inputs -
+    with or without a tilt model (both inputs are limited to the sampled region before the shell sums)."""
+    from acryo.alignment import FSCAlignment
+    from acryo.tilt import dual_axis
+
+    shape = tuple(case["box"])
+    a = _img(shape, case["seed"], case["smooth"])
+    b = _img(shape, case["seed"] + 7, case["smooth"])
+    kw = {}
+    if case["tilt"] == "single":
+        kw["tilt"] = (-60.0, 60.0)
+    elif case["tilt"] == "dual":
+        kw["tilt"] = dual_axis((-60.0, 60.0), (-50.0, 50.0))
+    quat = np.array(case["quat"], dtype=np.float64)
+    quat = quat / np.linalg.norm(quat)
+    z3 = np.zeros(3)
+    desc = dict(part="model", box=list(shape), tilt=case["tilt"], smooth=case["smooth"], exps=case["exps"], quat=case["quat"])
+    fails = []
+
+    def sc(img, tmpl):
+        return float(engine.api(FSCAlignment(tmpl, **kw).score, img, quat, z3))
+
+    sab, sba, saa = sc(a, b), sc(b, a), sc(a, a)
+    if not (abs(sab) <= 1 + 1e-5 and abs(saa) <= 1 + 1e-5):
+        fails.append(dict(desc, clause="Bounded", observed=[sab, saa]))
+    if abs(sab - sba) > 1e-4:
+        fails.append(dict(desc, clause="SymmetricInInputs", observed=[sab, sba]))
+    if abs(saa - 1.0) > 1e-4:
+        fails.append(dict(desc, clause="SelfIsOne", observed=saa))
+    ea, eb = case["exps"]
+    if not case["smooth"]:
+        # powers of two: the scaled spectra are exactly the scaled originals, so nothing but the normalisation can differ
+        sg = sc(a * np.float32(2.0**ea), b * np.float32(2.0**eb))
+        if abs(sg - sab) > 1e-4:
+            fails.append(dict(desc, clause="GainInvariant", observed=sg, expected=sab))
+        sgs = sc(a * np.float32(2.0**ea), a * np.float32(2.0**ea))
+        if abs(sgs - 1.0) > 1e-4:
+            fails.append(dict(desc, clause="SelfIsOne", scaled=True, observed=sgs))
+        if case["tilt"] == "none":
+            # the value itself: mean over the shells floor(|f| min(shape)) of Re sum(F1 conj F2) / sqrt(sum|F1|^2 sum|F2|^2)
+            fa, fb = np.fft.fftn(a.astype(np.float64)), np.fft.fftn(b.astype(np.float64))
+            fr = np.meshgrid(*[np.fft.fftfreq(n) for n in shape], indexing="ij")
+            lab = np.floor(np.sqrt(sum(f**2 for f in fr)) * min(shape) + 1e-9).astype(int)
+            vals = []
+            for L in range(lab.max() + 1):
+                m = lab == L
+                den = math.sqrt(float((np.abs(fa[m]) ** 2).sum()) * float((np.abs(fb[m]) ** 2).sum()))
+                vals.append(float((fa[m] * np.conj(fb[m])).real.sum()) / den if den > 0 else 0.0)
+            want = float(np.mean(vals))
+            if abs(want - sab) > 2e-4:
+                fails.append(dict(desc, clause="ScoreIsMeanShellValue", observed=sab, expected=want))
+    # the other entry points give the same number: the landscape at zero shift, and align on identical inputs
+    m = FSCAlignment(b, **kw)
+    land = np.asarray(engine.api(m.landscape, a, (1.0, 1.0, 1.0), quat, z3))
+    if abs(float(land[tuple(n // 2 for n in land.shape)]) - sab) > 1e-4:
+        fails.append(dict(desc, clause="FscEntryPointsAgree", entry="landscape", observed=float(land[tuple(n // 2 for n in land.shape)]), expected=sab))
+    r = engine.api(FSCAlignment(a, **kw).align, a, (1.0, 1.0, 1.0), quat, z3)
+    if abs(float(r.score) - 1.0) > 1e-3 or float(np.max(np.abs(r.shift))) > 0.051:
+        fails.append(dict(desc, clause="SelfIsOne", entry="align", observed=[float(r.score)] + [float(x) for x in r.shift]))
+    return dict(failures=fails)
+
+
+def _model_cases():
+    out = []
+    for box in ((8, 8, 8), (7, 8, 9), (6, 9, 7)):
+        for tilt in ("none", "single", "dual"):
+            for k, (smooth, exps, quat) in enumerate(((False, (0, 0), (0, 0, 0, 1)), (False, (-20, -20), (1, 1, 0, 3)), (False, (10, -14), (0, 0, 0, 1)),
+                                                      (False, (-16, 5), (1, -2, 1, 4)), (True, (0, 0), (0, 0, 0, 1)), (True, (0, 0), (1, 1, 0, 3)))):
+                out.append(dict(kind="model", box=list(box), tilt=tilt, smooth=smooth, exps=list(exps), quat=list(quat), seed=1 + k))
+    return out
+
+
 def replay(case) -> dict:
+    if case.get("kind") == "model":
+        return replay_model(case)
     if case.get("kind") == "loader":
         return replay_loader(case)
     if case.get("kind") == "split":
@@ -193,7 +277,8 @@ def run(rep: engine.Report, tier: str, seed: int):
                         i += 1
                         lcases.append(dict(kind="loader", n=n, box=list(box), mask=mask, n_set=n_set, zero_norm=zn,
                                            seed=(seed + i) % 5, seed0=seed * 1000 + i, dfreq=(1.0 / min(box), 1.5 / min(box), 0.25)[i % 3]))
-    allc = cases + lcases
+    mcases = _model_cases()
+    allc = cases + lcases + mcases
     results = engine.parallel_replay("harness.props.c17", "replay", allc)
     engine.collect(rep, allc, results, key=lambda c: c.get("cfg") or {k: c[k] for k in c if k != "seed0"})
     scases = _split_cases(seed)
@@ -221,6 +306,8 @@ def run(rep: engine.Report, tier: str, seed: int):
         "exact shell occupancy for 22 further shapes up to 6^3 (odd/even/non-cubic); the real fourier_shell_correlation is "
         f"compared shell by shell ({len(cases)} cases) and {len(lcases)} loader/group FSC cases are checked through the stated "
         "relations (FSC of the C09 halves after the mask, half maps = split averages minus the mean, reproducibility); "
+        f"{len(mcases)} FSCAlignment score/landscape/align cases (3 boxes x tilt none/single/dual x amplitudes 2^-20..2^10 x orientations: symmetric, "
+        "gain invariant, bounded, 1 for identical inputs, equal to the mean shell value, the same through every entry point); "
         f"{len(scases)} fsc_with_halfmaps calls over weighted one-hot sub-volumes are judged by TLC with the Averaging acceptor "
         "(the two half maps are means over a bipartition of the molecules: disjoint, exhaustive, reproducible)"
     )
